@@ -210,22 +210,31 @@ Definition create_char (d : dlcd) (loc : Z) (rows : list Z) : dlcd :=
      d_bright := d_bright d; d_blstate := d_blstate d;
      d_log := EvCG (Z.land (u8 loc) 7) rows :: d_log d |}.
 
+(* the bytes of the C string literal String("..."): the transpiler copies the Python text into
+   the sketch, the sketch is UTF-8, and Arduino's String counts, cuts and prints bytes *)
+Definition utf8_char (c : Z) : list Z :=
+  if c <? 128 then [c]
+  else if c <? 2048 then [192 + c / 64; 128 + c mod 64]
+  else if c <? 65536 then [224 + c / 4096; 128 + (c / 64) mod 64; 128 + c mod 64]
+  else [240 + c / 262144; 128 + (c / 4096) mod 64; 128 + (c / 64) mod 64; 128 + c mod 64].
+Definition utf8 (t : list Z) : list Z := flat_map utf8_char t.
+
 (* None = the transpiler rejects the call (ValueError at parse/emit time) *)
 Definition dstep (d : dlcd) (op : lop) : option dlcd :=
   let cols := d_cols d in
   match op with
   | OWrite col row text clear align =>
-      if align_ok align then Some (write_aligned d cols col row text clear align) else None
+      if align_ok align then Some (write_aligned d cols col row (utf8 text) clear align) else None
   | OLine row text align clear =>
-      if align_ok align then Some (write_aligned d cols 0 row text clear align) else None
+      if align_ok align then Some (write_aligned d cols 0 row (utf8 text) clear align) else None
   | OMessage top bottom ta ba clear =>
       if align_ok ta && align_ok ba then
-        let d1 := match top with Some t => write_aligned d cols 0 0 t clear ta | None => d end in
-        Some (match bottom with Some b => write_aligned d1 cols 0 1 b clear ba | None => d1 end)
+        let d1 := match option_map utf8 top with Some t => write_aligned d cols 0 0 t clear ta | None => d end in
+        Some (match option_map utf8 bottom with Some b => write_aligned d1 cols 0 1 b clear ba | None => d1 end)
       else None
   | OClear => Some (lcd_clear d)
   | OProgress row value maxv width style label =>
-      if style_ok style then Some (progress d cols row value maxv width style label) else None
+      if style_ok style then Some (progress d cols row value maxv width style (utf8 label)) else None
   | ODisplay on => Some (dev_display d on)
   | OBacklight on => Some (dev_backlight d on)
   | OBrightness level => Some (dev_brightness d level)
